@@ -3,9 +3,9 @@ CONSTANT MaxNodes = 5
 CONSTANT MaxLeaves = 3
 CONSTANT MaxList = 2
 CONSTANT MaxSingles = 3
-CONSTANT AccReuse = FALSE
+CONSTANT AccReuse = TRUE
 CONSTANT SymLeaves = 2
-CONSTANT Design = "len"
-CONSTANT Domains = {"structure"}
+CONSTANT Design = "reference"
+CONSTANT Domains = {"history"}
 INVARIANT RoundTripHolds
 CHECK_DEADLOCK FALSE
